@@ -11,7 +11,7 @@ namespace FDA.Dict
 /-- A dictionary `label ↦ entry`, in insertion order. -/
 abbrev D (α : Type) := List (Int × α)
 
-variable {α β : Type}
+variable {α β γ : Type}
 
 /-- `d.get(k)` / `d[k]` (`none` = `KeyError`). -/
 def get? : D α → Int → Option α
@@ -57,10 +57,16 @@ def mapVals (f : α → β) (d : D α) : D β := d.map fun p => (p.1, f p.2)
 /-- Shift every key by `t` (`temp + key` in `IrregularArgvals.concatenate`). -/
 def shift (t : Int) (d : D α) : D α := d.map fun p => (t + p.1, p.2)
 
-/-- Fresh labels `0, 1, …` in order (how a freshly built dataset is labelled). -/
-def relabel (d : D α) : D α := (List.range d.length).zipWith (fun i p => ((i : Int), p.2)) d
+/-- Entries labelled `o, o+1, …` in order. -/
+def freshFrom : Nat → List α → D α
+  | _, [] => []
+  | o, e :: t => ((o : Int), e) :: freshFrom (o + 1) t
 
-/-- A dictionary built from a list of entries with labels `0, 1, …`. -/
-def fresh (xs : List α) : D α := (List.range xs.length).zipWith (fun i e => ((i : Int), e)) xs
+/-- A dictionary built from a list of entries with labels `0, 1, …`
+(how a freshly built dataset is labelled). -/
+def fresh (xs : List α) : D α := freshFrom 0 xs
+
+/-- Fresh labels `0, 1, …` in order, same entries. -/
+def relabel (d : D α) : D α := fresh (vals d)
 
 end FDA.Dict
